@@ -52,17 +52,17 @@ Definition spec_agrees (r : store * res * list str) (cur : store) (ro : res) (vi
   match decode_view view with Some dv => agrees false r cur ro dv | None => false end.
 
 (** 1: model agrees   2: spec agrees   4*class   64: command in the property's domain *)
-Definition judge (prev : store) (c : cmd) (o : ostep) : nat * store :=
+Definition judge (prev : store) (e : estep) (o : ostep) : nat * store :=
   let '(bs, sb, nm, ro, view) := o in
   let cur := store_of bs sb nm in
-  ((if agrees true (run_cmd prev c) cur ro view then 1 else 0)
-   + (if spec_agrees (spec_step prev c) cur ro view then 2 else 0)
-   + 4 * cls_code (classify prev c)
-   + (if valid_cmd c then 64 else 0), cur).
+  ((if agrees true (run_step prev e) cur ro view then 1 else 0)
+   + (if spec_agrees (spec_estep prev e) cur ro view then 2 else 0)
+   + 4 * cls_code (match e with ECmd c => classify prev c | _ => None end)
+   + (if match e with ECmd c => valid_cmd c | _ => true end then 64 else 0), cur).
 
-Fixpoint judge_trace (prev : store) (h : list cmd) (os : list ostep) : list nat :=
+Fixpoint judge_trace (prev : store) (h : list estep) (os : list ostep) : list nat :=
   match h, os with
-  | c :: h', o :: os' => let '(code, cur) := judge prev c o in code :: judge_trace cur h' os'
+  | e :: h', o :: os' => let '(code, cur) := judge prev e o in code :: judge_trace cur h' os'
   | _, _ => []
   end.
 
@@ -71,3 +71,6 @@ Definition refines_at (st : store) (c : cmd) : bool :=
   let '(m, rm, vm) := run_cmd st c in spec_agrees (spec_step st c) m rm vm.
 Definition state_after (h : list cmd) : store :=
   fold_left (fun st c => fst (fst (run_cmd st c))) h init_store.
+
+Definition refines_at_step (st : store) (e : estep) : bool :=
+  let '(m, rm, vm) := run_step st e in spec_agrees (spec_estep st e) m rm vm.
